@@ -335,7 +335,14 @@ func c13(a *vlib.Args) {
 	}
 	forEachTree(&vlib.Args{NShards: 1}, 3, 0, false, func(_ int64, tc treeCase) {
 		enc := refcodec.Encode(nil, tc.Node)
-		if len(enc) > 24 || len(enc) == 0 || !encSeen.AddBytes(enc) {
+		if len(enc) == 0 || !encSeen.AddBytes(enc) {
+			return
+		}
+		if len(enc) > 24 {
+			// large boundary payloads (varint width edges 252/253 ...): the valid encoding itself, no mutations
+			if tc.Node.Size() <= 2 && next() {
+				c.try(enc, "valid encoding of "+tc.Node.String())
+			}
 			return
 		}
 		if next() {
@@ -362,6 +369,14 @@ func c13(a *vlib.Args) {
 			m[pos] = enc[pos]
 		}
 	})
+	familyCases(func(tc treeCase) {
+		if tc.Name[:2] != "F6" && tc.Name[:2] != "F5" {
+			return
+		}
+		if next() {
+			c.try(refcodec.Encode(nil, tc.Node), "valid encoding of family "+tc.Name)
+		}
+	})
 	for _, in := range tableCorruptions() {
 		if next() {
 			c.try(in, "table corruption")
@@ -373,6 +388,6 @@ func c13(a *vlib.Args) {
 	r.Outcomes["inputs accepted by the parser (distinct)"] = c.accepted
 	r.Outcomes["prefix re-decodes"] = r.Transitions
 	r.Transitions = 0
-	r.Rule = fmt.Sprintf("inputs: ALL byte strings of length 0..%d, every distinct valid encoding (<=24 bytes) of the <=3-node tree space with every front truncation, every single-byte mutation (x256) of encodings of <=%d-node trees, explicit table corruptions; for each input the recursive parser ACCEPTS (distinct_nontrivial counts these): probe/open/parse agreement, re-parse identity, nested re-read, and re-decoding behind each of %d prefixes (every single byte, varint-continuation look-alikes of width 2/4/8, valid encodings) compared through a fingerprint of every decoder reading from the end", maxLen, mutNodes, len(c.prefixes))
+	r.Rule = fmt.Sprintf("inputs: ALL byte strings of length 0..%d, every distinct valid encoding of the <=3-node tree space (<=24 bytes: with every front truncation; larger boundary payloads of <=2-node trees and the F5/F6 size-edge families: as is), every single-byte mutation (x256) of encodings of <=%d-node trees, explicit table corruptions; for each input the recursive parser ACCEPTS (distinct_nontrivial counts these): probe/open/parse agreement, re-parse identity, nested re-read, and re-decoding behind each of %d prefixes (every single byte, varint-continuation look-alikes of width 2/4/8, valid encodings) compared through a fingerprint of every decoder reading from the end", maxLen, mutNodes, len(c.prefixes))
 	r.Write(a)
 }
